@@ -583,3 +583,15 @@ _extend("C04",
     kernels=[("glob", 6000, 200000)],
     scope="internal/resolver/package_json.go globstarToEscapedRegexp and the sideEffects-array loop of parsePackageJSON (UTF16ToString, `**/` prefix, fs.Join, backslash replacement, regexp.Compile with the empty-regexp fallback, map vs regexps); resolver.go: the sideEffectsMap/sideEffectsRegexps lookup, ResolveGlob (prefix test, leading directories, regexp text, QuoteMeta, regexp.Compile with the nil fallback, walk as a filter); helpers/glob.go ParseGlobPattern, GlobPatternToString; js_parser.go parts loop of handleGlobPattern; Go regexp.Compile/MatchString restricted to the fragment of Spec/MiniRegex with Go's UTF-8 decoding (ill-formed bytes = U+FFFD) in front",
     assumptions=["glob: Spec/MiniRegex parser+matcher = Go regexp on the generated texts (tied by the kernel against the real regexp package); Spec/Glob is the package author's reading of the dialect (`*`, `?`, `**` as a whole segment; `[ ]` and `{ }` literal); mock/Unix file system: Join = path.Clean, trailing slashes trimmed before directory lookup"])
+
+# partdeps (C04): the dependency edges between parts
+_extend("C04",
+    lean_modules=["EsbuildModel.Props.C04PartDeps"],
+    theorems=_thms("PartDeps", "use_covered reexports_covered alias_facts deps_cover_uses deps_only_uses live_closed no_dangling_reference toShake_carries "
+                   "exempt_iff_printer_inlines wrapper_dep namespace_dep merged_declarations_dep sound_on_nested_redeclaration sound_needs_aliasOk") + ["EsbuildModel.Spec.PartDeps.no_dangling"],
+    kernels=[("partdeps", 250, 20000)],
+    open=["PartDeps.deps_cover_uses without aliasOk: FALSE of the code (theorem sound_needs_aliasOk) — a parser link chain that ends at the exports/module symbol of a CommonJS-style file (`var exports = {}; { var exports; ... }`) gets the alias table built before the wrapper part and the namespace part exist; real builds reach it (about 6% of the generated builds); no behavioural consequence found (wrapper kept by the importer, part 0 not needed); observation",
+          "PartDeps: the const-value skip deletes the wrong key (`delete(part.SymbolUses, importData.Ref)` instead of `ref`): modelled as the code does; imprecision only (an unused cross-chunk import binding under --splitting --minify-syntax); observation",
+          "PartDeps: how the parser computes SymbolUses/DeclaredSymbols/SymbolCallUses, ImportSymbolPropertyUses (TS enum inlining) and how ReExports is computed are inputs, not modelled; the printer side of exempt_iff_printer_inlines is a transcription of two conditions in js_printer.go, not observed"],
+    scope="js_parser.go toAST 'Map locals to parts' (topLevelSymbolToParts: link following, the alias entries for merged symbols, NSExportPartIndex); graph.go AddPartToFile overlay / TopLevelSymbolToParts / GenerateSymbolImportAndUse / GenerateRuntimeSymbolImportAndUse; linker.go scanImportsAndExports: createWrapperForFile (step 4), createExportsForFile deps+uses, the SymbolCallUses loop, the const-value skip, the local-dependency loop with LocalPartsWithUses (step 5), the ImportsToBind loop incl. ReExports, the entry-point part, the import-record loop and the export-star loop (step 6) — modelled on the final tables (Impl/PartDeps.lean) against Spec/PartDeps.lean, tied through the partdeps observation hook on real builds; composed with Impl/Shake.lean",
+    assumptions=["partdeps: the hook observes AFTER steps 4-6, so the final SymbolUses are an input and linker-added uses are checked to be among them; Dependencies/LocalPartsWithUses/TopLevelSymbolToParts compared as sets; wf (8 bits + xu) is evaluated by the driver on every real dump and was never violated; aliasOk is a separate hypothesis of soundness that real builds can violate (see open)"])
